@@ -674,7 +674,16 @@ class ByteBlob:
 @lib('builtins.round')
 def _round(interp, x, nd=None):
     if nd is not None:
-        raise Unsupported("round with ndigits")
+        # round(x, n) for a literal n: decimal rounding over the reals, round_half_even(x * 10**n) / 10**n (float representation error of the
+        # result is outside the model, as everywhere in real mode)
+        if not isinstance(nd, int) or isinstance(nd, bool):
+            raise Unsupported("round with symbolic ndigits")
+        if nd >= 0:
+            r = round_half_even(x * 10 ** nd)
+            if isinstance(r, int):
+                return Fraction(r, 10 ** nd)
+            return Sym(r.as_real(), 'real') / 10 ** nd
+        return round_half_even(x / 10 ** (-nd)) * 10 ** (-nd)
     return round_half_even(x)
 
 
